@@ -113,6 +113,18 @@ Theorem C15_index_in_range : forall eps dims g m,
 Proof. exact sindex_lt. Qed.
 End C15.
 
+(** Whole histories (any number of remaps, clears, batches): at every point, every cell holds the first arg-max of the ghost
+    list [snd (grun c h)] = (what the last remap re-inserted: previous elites, then the buffer) ++ (every insertion since), emptied
+    by clear -- and every member of that list is routed by the CURRENT boundaries and bounds.  This is "an elitist grid over its
+    current boundaries" as one statement about all reachable states. *)
+Theorem C15_history_contents : forall (P : Type) (c : scfg) (h : list (sop P)),
+  cwf c -> (forall o, In o h -> sop_ok c o) ->
+  forall i, content (ss_arch (srun false c h)) i =
+            option_map (@elite_of (list Q * P)) (first_argmax c_obj (group i (snd (grun c h)))) /\
+            (forall x, In x (snd (grun c h)) ->
+               c_cell x = sindex (s_eps c) (s_dims c) (ss_geom (srun false c h)) (fst (c_pay x))).
+Proof. exact history_contents. Qed.
+
 (** the index map of this model IS the one C03 verifies (Model/SlidingIndex.v): per dimension and flattened *)
 Theorem C15_index_is_C03_index_1 : forall eps d b lo hi m, sidx1 eps d b lo hi m = sb_idx1 d b lo hi eps m.
 Proof. exact sidx1_eq. Qed.
@@ -174,5 +186,6 @@ Print Assumptions C15_nothing_lost.
 Print Assumptions C15_invariant.
 Print Assumptions C15_index_in_range.
 Print Assumptions C15_stale_refuted.
+Print Assumptions C15_history_contents.
 Print Assumptions C15_index_is_C03_index_1.
 Print Assumptions C15_index_is_C03_index.
